@@ -80,7 +80,9 @@ def run_case(case):
     sig0 = treeutil.sig(o0.tree)
     root = tempfile.mkdtemp(prefix="fv_c13_")
     try:
-        d1, d2 = os.path.join(root, "inc_a"), os.path.join(root, "inc_b")
+        # directory names in random alphabetical relation to their position in the path
+        na, nb = rng.sample(["inc_a", "inc_b", "zz_inc", "Inc_m", "a1"], 2)
+        d1, d2 = os.path.join(root, na), os.path.join(root, nb)
         os.makedirs(d1)
         os.makedirs(d2)
         if case["mode"] == "present":
